@@ -183,8 +183,14 @@ def shapes(slice_i, n):
         yield {"model": spec, "points": None, "obj": [], "tier": "quick"}
 
 
+def mixed(slice_i, n):
+    from vf import strategies as S_
+    for spec in S_.mixed_shapes(slice_i, n):
+        yield {"model": spec, "points": None, "obj": [], "tier": "quick"}
+
+
 def parts(tier):
-    return [Part("shapes%d" % i, enumerate_cases=(lambda t, i=i: shapes(i, 4)), check=check, time_quick=120.0) for i in range(4)] + [
+    return [Part("mixed%d" % i, enumerate_cases=(lambda t, i=i: mixed(i, 8)), check=check, time_quick=150.0) for i in range(8)] + [Part("shapes%d" % i, enumerate_cases=(lambda t, i=i: shapes(i, 4)), check=check, time_quick=120.0) for i in range(4)] + [
         Part("small", strategy=lambda t: _with_tier(case_strategy(t, "small"), t), check=check, quick=(6, 200), thorough=(12, 1500)),
         Part("large", strategy=lambda t: _with_tier(case_strategy(t, "large"), t), check=check, quick=(2, 80), thorough=(4, 500)),
         Part("huge", strategy=lambda t: _with_tier(case_strategy(t, "huge"), t), check=check, quick=(1, 80), thorough=(2, 500)),
